@@ -240,6 +240,15 @@ def rand_run(rng, fmt, kind, *, calls=None, iters=None, value_classes=None, dist
     if cb is not None and cb[0] == 'builtin' and rng.random() < 0.5:
         # the callback instantiated with the checkpoint's base class (without the engine), as the library's examples do
         s.insert(-1, ['cbbase', 1]); classes.append('callback_on_base_class')
+    if rng.random() < 0.3:
+        # the state the user's streams are in when they are handed to the library: float-field flags, precision, showpoint, alignment
+        # (the library sets what it needs itself), and an input stream that reports errors by exceptions
+        s.insert(-1, ['ofmt', rng.choice([1, 2, 3, 1 + 4, 8, 16 + 1, 64, 128 + 3])]); classes.append('user_stream_format')
+    if rng.random() < 0.25:
+        s.insert(-1, ['iexc', 1]); classes.append('input_stream_with_exceptions')
+    if cb is not None and cb[0] == 'builtin' and cb[1] in (2, 3) and rng.random() < 0.5:
+        # std::cout as the program left it (precision max_digits10, fixed, showpoint) when the verbose callback prints
+        s.insert(-1, ['coutfmt', rng.choice([256, 256 + 1, 8, 1 + 4, 16 + 256, 3])]); classes.append('cout_format_changed')
     if cb is not None and cb[0] == 'builtin' and rng.random() < 0.5:
         # one callback object for all the runs of the case (std::ref) instead of a fresh copy per run
         s.insert(-1, ['cbref', 1]); classes.append('callback_object_shared_between_runs')
